@@ -2,6 +2,9 @@
 
 Streams
   micro/sort    Python `sorted` on str and on real `ford.graphs.BaseNode` objects   vs  Lean `sortOn`
+  micro/nodes   `sorted()` over real graph nodes / entities (made by the real constructors, identifiers from a
+                real NameSelector) that carry equal labels, in every permutation: one result demanded (oracle),
+                and the same result as Lean `emitNodesTree` / `sortEntitiesTree` (key read from the AST of `__lt__`)
   micro/number  the real `NameSelector` on random request sequences (stub entities of the
                 real classes, so `get_dir()` is the real one)                        vs  Lean `number`
   micro/fs      rmtree/unlink/write sequences on a real scratch directory            vs  Lean `run`
@@ -19,6 +22,11 @@ Streams
                   - the components / type-bound procedures every derived type shows after
                     `FortranType.correlate` (inheritance chains, overriding, private and generic
                     bindings)                                                      vs  Lean `chainBindings` / `chainComps`
+                  - the sub-pages and copied files `get_page_tree` makes of every page directory, given the
+                    listing it received (entries differing only in extension / case, ordered_subpage,
+                    dot files, backups)                                            vs  Lean `pageFileListTree`
+                The shim also arranges the result of every os.listdir / os.scandir below the project (sorted,
+                reversed, shuffled, untouched) and shifts the clock of some runs by forty days.
 """
 from __future__ import annotations
 
@@ -47,6 +55,7 @@ F_CASE = "C12-case-collision-hash-order"
 F_TOPO = "C12-numbering-toposort-set-order"
 F_INHBY = "C12-inheritedby-children-set-order"
 F_GENCOPY = "C12-numbering-generic-copies-set-order"
+F_CLIOUT = "C12-cli-output-dir-not-excluded"
 
 
 # --------------------------------------------------------------------------
@@ -59,8 +68,12 @@ class Gen:
     others draw from small pools so that the known order-dependent classes occur."""
 
     def __init__(self, rng: random.Random, clean: bool, nfiles: int, multi_use: bool | None = None,
-                 case_variants: bool = False, includes: bool = False):
+                 case_variants: bool = False, includes: bool = False, preproc: bool = False):
         self.rng = rng
+        # preprocessing is on; the configured extensions contain dotted suffixes of one another (`f90` / `pp.f90`),
+        # some files carry the longer one, and program units have `#ifdef` blocks that declare different
+        # variables with and without the preprocessor
+        self.preproc = preproc
         self.case_variants = case_variants
         # include directories (configured order, deliberately not alphabetical) holding equally named files
         self.inc_dirs: list[str] = []
@@ -77,6 +90,7 @@ class Gen:
         self.modnames = []
         self.procs = []  # (module or None, name)
         self.types = []  # (module, name)
+        self.rename_callers = 0
         self.build()
 
     def fresh(self, prefix):
@@ -99,7 +113,8 @@ class Gen:
                 if not self.clean and rng.random() < 0.25 and self.files:
                     base = os.path.basename(rng.choice(self.files)["path"])
                 else:
-                    base = f"f{k}_{rng.choice('abcxyz')}." + rng.choice(["f90", "f90", "F90", "f95", "f03"])
+                    base = f"f{k}_{rng.choice('abcxyz')}." + rng.choice(
+                        ["pp.f90", "pp.f90", "F90", "f90", "pp.F90", "q.f90"] if self.preproc else ["f90", "f90", "F90", "f95", "f03"])
                 path = rng.choice(dirs) + base
                 if path not in used_paths and (not self.clean or base not in {os.path.basename(p) for p in used_paths}):
                     used_paths.add(path)
@@ -108,6 +123,8 @@ class Gen:
             nunits = rng.choice([1, 1, 2])
             for _ in range(nunits):
                 u = self.module()
+                if self.preproc and rng.random() < 0.85:
+                    u["pp"] = (self.fresh("ppon"), self.fresh("ppoff"))
                 self.add_includes(path, u)
                 self.add_unit(f, u)
             if self.modnames and rng.random() < 0.45:
@@ -165,14 +182,16 @@ class Gen:
         if u["name"].lower() not in {x["name"].lower() for x in f["units"]}:
             f["units"].append(u)
 
-    def uses(self):
+    def uses(self, own=None):
+        """modules a unit uses; never the module the unit is (or is in): `module mod_a; use mod_a` is not a
+        Fortran program (FORD recurses for ever on it, the same way in every run)"""
         cands = list(self.modnames)
         if not cands:
             return []
         kmax = 3 if self.multi else 1
         k = self.rng.choice([0, 1, 1, kmax, kmax])
         k = min(k, len(cands))
-        us = self.rng.sample(cands, k)
+        us = [u for u in self.rng.sample(cands, k) if own is None or u.lower() != own.lower()]
         if self.multi and self.rng.random() < 0.2:
             us.append("iso_c_binding")
         if self.multi and self.rng.random() < 0.15:
@@ -185,7 +204,7 @@ class Gen:
     def module(self):
         rng = self.rng
         nm = self.name("m", ["mod_a", "mod_b"]) if (not self.clean and rng.random() < 0.08) else self.fresh("m")
-        m = {"kind": "module", "name": nm, "uses": self.uses(), "vars": [], "types": [], "procs": [], "ifaces": [],
+        m = {"kind": "module", "name": nm, "uses": self.uses(own=nm), "vars": [], "types": [], "procs": [], "ifaces": [],
              "includes": []}
         for _ in range(rng.choice([0, 1, 2])):
             m["vars"].append(self.varname())
@@ -213,10 +232,25 @@ class Gen:
             p = self.proc(nm)
             if p["name"].lower() not in {x["name"].lower() for x in m["procs"]}:
                 m["procs"].append(p)
+        # a procedure that calls an own procedure and - through `use other, only: alias => name` - an equally
+        # named procedure of another module: two different entities with one label in one hop of its call graph
+        for q in list(m["procs"]):
+            twins = [(mod, n) for (mod, n) in self.procs if mod is not None and mod != nm and n.lower() == q["name"].lower()]
+            if twins and rng.random() < 0.6:
+                mod, n = rng.choice(twins)
+                alias = self.fresh("al")
+                c = self.proc(nm)
+                c.update(name=self.fresh("caller"), uses=[], renames=[(mod, alias, n)], calls=[q["name"], alias],
+                         links=[], internal=None)
+                c["args"] = [a for a in c["args"] if a != c["name"]]
+                m["procs"].append(c)
+                self.rename_callers += 1
         for t in m["types"]:
             self.add_bindings(m, t)
         if rng.random() < 0.2 and len(m["procs"]) >= 2:
-            gname = self.name("g", ["gen", "init"])
+            # (not a name of the procedure pool: a module that uses this one and has a procedure of the generic's
+            # name would not be a Fortran program - and FORD dies on it in every run, binding `=> init` to the interface)
+            gname = self.name("g", ["gen", "setup"])
             if gname.lower() not in {x["name"].lower() for x in m["procs"]}:
                 m["ifaces"].append({"name": gname, "procs": [p["name"] for p in m["procs"][:2]]})
         self.modnames.append(nm)
@@ -264,7 +298,7 @@ class Gen:
              "name": self.name("p", ["foo", "bar", "init", "Foo"]),
              "args": [self.varname() for _ in range(rng.choice([0, 1, 2]))],
              "locals": [self.varname() for _ in range(rng.choice([0, 1]))],
-             "uses": self.uses() if (toplevel or rng.random() < 0.25) else [],
+             "uses": self.uses(own=mod) if (toplevel or rng.random() < 0.25) else [], "renames": [],
              "calls": [], "links": [], "internal": None}
         p["args"] = list(dict.fromkeys(p["args"]))
         p["locals"] = [v for v in dict.fromkeys(p["locals"]) if v not in p["args"] and v != p["name"]]
@@ -306,6 +340,8 @@ class Gen:
         L.append(doc)
         for u in p["uses"]:
             L.append(f"{ind}  use {u}")
+        for (mod, alias, remote) in p.get("renames", []):
+            L.append(f"{ind}  use {mod}, only: {alias} => {remote}")
         for a in p["args"]:
             L.append(f"{ind}  integer, intent(in) :: {a}")
         if p["kind"] == "function":
@@ -362,6 +398,9 @@ class Gen:
         for v in u["vars"]:
             L.append(f"  integer :: {v} = 0")
             L.append(f"    !! variable {v}")
+        if u.get("pp"):
+            L += ["#ifdef __GFORTRAN__", f"  integer :: {u['pp'][0]} = 1", "    !! declared when the file goes through the preprocessor",
+                  "#else", f"  integer :: {u['pp'][1]} = 2", "    !! declared when it does not", "#endif"]
         if u["kind"] == "program":
             for c in u.get("calls", []):
                 L.append(f"  call {c}()")
@@ -429,7 +468,7 @@ class Gen:
                 for name in u.get("includes", []):
                     for v, _val in self.include_variant(f["path"], name)[1]:
                         ents.append((f["path"], q + v, "none", v))
-                for v in u["vars"]:
+                for v in u["vars"] + list(u.get("pp") or ()):
                     ents.append((f["path"], q + v, "none", v))
                 for t in u["types"]:
                     ents.append((f["path"], q + t["name"], "type", t["name"]))
@@ -466,9 +505,9 @@ class Gen:
             for u in f["units"]:
                 chk(f["path"], u["name"], u["uses"])
                 for p in u["procs"]:
-                    chk(f["path"], u["name"] + "/" + p["name"], p["uses"])
+                    chk(f["path"], u["name"] + "/" + p["name"], p["uses"] + [r[0] for r in p.get("renames", [])])
             for p in f["top"]:
-                chk(f["path"], p["name"], p["uses"])
+                chk(f["path"], p["name"], p["uses"] + [r[0] for r in p.get("renames", [])])
         bases = {}
         for f in self.files:
             bases.setdefault(os.path.basename(f["path"]), []).append(f["path"])
@@ -528,7 +567,7 @@ class Gen:
                       if t["extends"] and t["extends"].lower() in names)
         return {"collide": collide, "multi_use": multi, "same_base": same_base, "nfiles": len(self.files),
                 "multi_child_types": multi_child, "includes": includes, "inc_dirs": list(self.inc_dirs),
-                "derived_types": inherit, "generic_copies": generic_copies,
+                "derived_types": inherit, "generic_copies": generic_copies, "rename_callers": self.rename_callers,
                 "collide_topo": sorted(k for k in collide if k.split(":")[0] in ("type", "module")),
                 "case_collide": case_collide}
 
@@ -567,6 +606,114 @@ class Gen:
         return recs
 
 
+class PageGen:
+    """A `page_dir`: nested directories of markdown pages.  Directories hold entries whose names differ only in
+    extension and / or letter case (a page `usage.md` next to a sub-directory `usage/`, `FAQ.md` next to `faq.md`,
+    `notes.md` next to `notes.txt`), names that sort differently with and without their extension (`a.md`, `a-b.md`),
+    dot files and `~` backups (skipped by FORD), plain files (copied), directories without `index.md` (ignored),
+    `ordered_subpage` lists (shuffled subsets, sometimes naming a file that does not exist) and `copy_subdir`."""
+
+    STEMS = ["usage", "faq", "install", "notes", "a", "a-b", "guide", "zebra", "b_c", "b"]
+
+    def __init__(self, rng: random.Random):
+        self.rng = rng
+        self.files: dict[str, str] = {}
+        self.dirs: dict[str, dict] = {}      # directory (relative to the page dir, "" = top) -> entries / ordered list
+        self.n = 0
+        self.build_dir("", 0)
+
+    def page(self, rel, title, extra=()):
+        self.n += 1
+        meta = [f"title: {title}"] + list(extra)
+        self.files[rel] = "---\n" + "\n".join(meta) + "\n---\n\n" + f"Text of page {self.n} ({title}).\n\n" \
+            "Second paragraph with *emphasis* and a [link](https://example.org).\n"
+
+    def build_dir(self, rel, depth):
+        rng = self.rng
+        pre = rel + "/" if rel else ""
+        entries: dict[str, str] = {"index.md": "index"}
+        for stem in rng.sample(self.STEMS, rng.choice([2, 3, 3, 4])):
+            forms = [stem + ".md"]
+            r = rng.random()
+            if r < 0.45 and depth < 2:
+                forms.append(stem)                                # sub-directory with the name of the page
+            if rng.random() < 0.3:
+                forms.append(rng.choice([stem.upper(), stem.capitalize()]) + ".md")
+            if rng.random() < 0.25:
+                forms.append(stem + rng.choice([".txt", ".csv"]))
+            if rng.random() < 0.15:
+                forms.remove(stem + ".md")
+            for name in dict.fromkeys(forms):
+                if name.endswith(".md"):
+                    entries[name] = "page"
+                elif "." in name:
+                    entries[name] = "file"
+                else:
+                    entries[name] = "dir"
+        if rng.random() < 0.25:
+            entries[".hidden.md"] = "page"
+        if rng.random() < 0.25:
+            entries["draft.md~"] = "file"
+        if rng.random() < 0.3:
+            entries["assets"] = "plaindir"
+        ordered = []
+        if rng.random() < 0.4:
+            cand = [n for n in entries if n != "index.md"]
+            ordered = rng.sample(cand, rng.randint(1, min(3, len(cand))))
+            if rng.random() < 0.3:
+                ordered.insert(rng.randint(0, len(ordered)), "ghost.md")
+            if rng.random() < 0.2:
+                ordered.append("index.md")
+        extra = []
+        if ordered:
+            extra.append("ordered_subpage: " + ordered[0])
+            extra += ["    " + x for x in ordered[1:]]
+        if entries.get("assets") == "plaindir" and rng.random() < 0.6:
+            extra.append("copy_subdir: assets")
+        self.dirs[rel] = {"entries": entries, "ordered": [x for x in ordered if x != "index.md"]}
+        self.page(pre + "index.md", f"Index of {rel or 'the guide'}", extra)
+        for name, kind in entries.items():
+            if kind == "page":
+                self.page(pre + name, f"Page {name} in {rel or 'top'}")
+            elif kind == "file":
+                self.files[pre + name] = f"plain file {pre}{name}\n"
+            elif kind == "plaindir":
+                for k in rng.sample(["z.css", "b.png.txt", "a.js", "M.txt", "sub/deep.txt"], rng.choice([2, 3])):
+                    self.files[pre + name + "/" + k] = f"asset {k}\n"
+            elif kind == "dir":
+                if rng.random() < 0.85:
+                    self.build_dir(pre + name, depth + 1)
+                else:
+                    # a directory without index.md: FORD warns and leaves it out
+                    self.files[pre + name + "/readme.md"] = "---\ntitle: never shown\n---\nnot a page tree\n"
+                    entries[name] = "plaindir"
+
+    def expected(self, rel, walk):
+        """what `get_page_tree` makes of the names it walks (in that order): sub-pages and copied files"""
+        ent = self.dirs[rel]["entries"]
+        pre = rel + "/" if rel else ""
+        sub, files = [], []
+        for name in walk:
+            kind = ent.get(name)
+            if kind is None or kind == "plaindir" or kind == "index":
+                continue
+            if kind == "dir":
+                sub.append(pre + name + "/index")
+            elif kind == "page":
+                sub.append(pre + name[:-len(".md")])
+            else:
+                files.append(name)
+        return sub, files
+
+    def features(self):
+        same_stem = 0
+        for d in self.dirs.values():
+            keys = [os.path.splitext(n)[0].lower() for n in d["entries"] if not n.startswith(".") and not n.endswith("~")]
+            same_stem += len(keys) - len(set(keys))
+        return {"page_dirs": len(self.dirs), "same_stem_pairs": same_stem,
+                "ordered_lists": sum(1 for d in self.dirs.values() if d["ordered"])}
+
+
 # --------------------------------------------------------------------------
 # the shim executed inside the ford subprocess (no change to the sources)
 # --------------------------------------------------------------------------
@@ -575,9 +722,99 @@ SHIM = r'''
 import json as _json, os as _os, atexit as _atexit
 import ford.fortran_project as _fp
 import ford.sourceform as _sf
-_TR = {"order": [], "requests": [], "lists": {}, "forced": %(forced)r, "readers": [], "types": []}
+_TR = {"order": [], "requests": [], "lists": {}, "forced": %(forced)r, "readers": [], "types": [],
+       "enumerated": None, "exts": None, "opened": [], "pagedirs": [], "listings": 0}
 _SRC = %(srcroot)r
 _ROOT = _os.path.dirname(_SRC)
+# --- the order in which the file system enumerates a directory: every os.listdir / os.scandir below the project
+# (so also os.walk, glob, Path.iterdir / glob / rglob, shutil.copytree) hands its entries out in the order asked for
+_FSORDER = %(fsorder)r       # None = as the file system gives them | "sorted" | "reversed" | ["shuffle", seed]
+_LISTED = {}
+def _below(p):
+    try:
+        q = _os.path.abspath(_os.fspath(p))
+    except TypeError:
+        return None
+    if isinstance(q, bytes):
+        return None
+    return q if (q == _ROOT or q.startswith(_ROOT + _os.sep)) else None
+def _arrange(where, items, key):
+    if _FSORDER is None:
+        return items
+    items = sorted(items, key=key)
+    if _FSORDER == "reversed":
+        items.reverse()
+    elif isinstance(_FSORDER, (list, tuple)):
+        import random as _random
+        _random.Random("%%s:%%s" %% (_FSORDER[1], _os.path.relpath(where, _ROOT))).shuffle(items)
+    _TR["listings"] += 1
+    return items
+_orig_listdir = _os.listdir
+def _listdir(path="."):
+    got = _orig_listdir(path)
+    q = _below(path)
+    if q is not None:
+        got = _arrange(q, got, lambda n: n)
+        _LISTED[q] = list(got)
+    return got
+_os.listdir = _listdir
+_orig_scandir = _os.scandir
+class _Scan:
+    def __init__(self, entries):
+        self._it = iter(entries)
+    def __iter__(self):
+        return self
+    def __next__(self):
+        return next(self._it)
+    def __enter__(self):
+        return self
+    def __exit__(self, *a):
+        return False
+    def close(self):
+        pass
+def _scandir(path="."):
+    q = _below(path)
+    if q is None or _FSORDER is None:
+        return _orig_scandir(path)
+    with _orig_scandir(path) as it:
+        entries = list(it)
+    return _Scan(_arrange(q, entries, lambda e: e.name))
+_os.scandir = _scandir
+# --- the clock: every ford module that bound datetime / date sees it shifted, time.time() likewise
+_CLOCK = %(clock)r
+if _CLOCK:
+    import datetime as _dt, time as _time, sys as _sys
+    _delta = _dt.timedelta(seconds=_CLOCK)
+    _real_dt, _real_d = _dt.datetime, _dt.date
+    class _DT(_real_dt):
+        @classmethod
+        def now(cls, tz=None):
+            return _real_dt.now(tz) + _delta
+        @classmethod
+        def utcnow(cls):
+            return _real_dt.utcnow() + _delta
+        @classmethod
+        def today(cls):
+            return _real_dt.today() + _delta
+    class _D(_real_d):
+        @classmethod
+        def today(cls):
+            return (_real_dt.now() + _delta).date()
+    for _m in list(_sys.modules.values()):
+        if getattr(_m, "__name__", "").split(".")[0] != "ford":
+            continue
+        for _a, _v in list(vars(_m).items()):
+            if _v is _real_dt:
+                setattr(_m, _a, _DT)
+            elif _v is _real_d:
+                setattr(_m, _a, _D)
+            elif _v is _dt:
+                pass
+    _ot, _olt, _ogt, _osf = _time.time, _time.localtime, _time.gmtime, _time.strftime
+    _time.time = lambda: _ot() + _CLOCK
+    _time.localtime = lambda secs=None: _olt(_ot() + _CLOCK if secs is None else secs)
+    _time.gmtime = lambda secs=None: _ogt(_ot() + _CLOCK if secs is None else secs)
+    _time.strftime = lambda fmt, t=None: _osf(fmt, _olt(_ot() + _CLOCK) if t is None else t)
 _orig_faf = _fp.find_all_files
 def _rel(p):
     try:
@@ -586,12 +823,18 @@ def _rel(p):
         return str(p)
 def _faf(settings):
     got = list(_orig_faf(settings))
+    # what find_all_files really returned (relative to the project directory) and the extension lists it worked with
+    _TR["enumerated"] = sorted(_os.path.relpath(str(p), _ROOT) for p in got)
+    _TR["exts"] = {"extensions": list(settings.extensions), "fixed": list(settings.fixed_extensions),
+                   "fpp": list(settings.fpp_extensions), "extra": list(settings.extra_filetypes)}
     forced = _TR["forced"]
     if forced is not None:
         byrel = {_rel(p): p for p in got}
-        if sorted(byrel) != sorted(forced):
-            raise SystemExit("shim: forced order does not match the enumerated files: %%r vs %%r" %% (sorted(byrel), sorted(forced)))
-        got = [byrel[r] for r in forced]
+        missing = [r for r in forced if r not in byrel]
+        if missing:
+            raise SystemExit("shim: source files of the project were not enumerated: %%r" %% (missing,))
+        # files the project does not have (e.g. read from a stale output directory) come after the forced ones
+        got = [byrel[r] for r in forced] + [byrel[r] for r in sorted(set(byrel) - set(forced))]
         return got
     return _Recorder(got)
 class _Recorder(list):
@@ -644,6 +887,12 @@ def _ri(self, filename, *a, **k):
         _TR["readers"].append(str(filename))
     return _orig_ri(self, filename, *a, **k)
 _rd.FortranReader.__init__ = _ri
+# how every source file is opened: through the preprocessor? as fixed form?
+_orig_sfi = _sf.FortranSourceFile.__init__
+def _sfi(self, filepath, settings, preprocessor=None, fixed=False, *a, **k):
+    _TR["opened"].append([_os.path.relpath(str(filepath).strip(), _ROOT), preprocessor is not None, bool(fixed)])
+    return _orig_sfi(self, filepath, settings, preprocessor, fixed, *a, **k)
+_sf.FortranSourceFile.__init__ = _sfi
 # what a derived type shows after correlate: components and type-bound procedures, in list order
 _orig_tc = _sf.FortranType.correlate
 def _tc(self, project):
@@ -655,6 +904,27 @@ def _tc(self, project):
                          "vars": [str(v.name) for v in self.variables]})
     return r
 _sf.FortranType.correlate = _tc
+# the page tree: what get_page_tree makes of every page directory
+import ford.pagetree as _pt
+import ford as _ford_pkg
+_orig_gpt = _pt.get_page_tree
+def _gpt(topdir, *a, **k):
+    node = _orig_gpt(topdir, *a, **k)
+    try:
+        top = _os.path.abspath(_os.fspath(topdir))
+        rec = {"dir": top, "listing": _LISTED.get(top), "made": node is not None}
+        if node is not None:
+            rec["ordered"] = [str(x) for x in node.ordered_subpages]
+            rec["subpages"] = [(sp.location / sp.filename).as_posix() for sp in node.subpages]
+            rec["files"] = [str(x) for x in node.files]
+            rec["topdir"] = _os.path.abspath(str(node.topdir))
+        _TR["pagedirs"].append(rec)
+    except Exception as e:
+        _TR["pagedirs"].append({"dir": str(topdir), "error": repr(e)})
+    return node
+_pt.get_page_tree = _gpt
+if getattr(_ford_pkg, "get_page_tree", None) is _orig_gpt:
+    _ford_pkg.get_page_tree = _gpt
 if %(workaround)r:
     # keep the open project file out of the settings object (see finding C12-parallel-graph-dir-crash),
     # so that the process_map branch of output_graphs can be exercised at all
@@ -678,11 +948,18 @@ def junk_tree(doc: Path, rng: random.Random, as_file: bool):
     if as_file:
         doc.write_text("this is a stale plain file where the output directory goes\n")
         return
-    for rel in ["stale.html", "proc/stale_proc~7.html", "module/old_module.html", "src/old.f90",
+    for rel in ["stale.html", "proc/stale_proc~7.html", "module/old_module.html", "src/old.f90", "src/Other.F90",
                 "search/search_database.json", "deep/er/than/usual/x.txt", "lists/procedures.html", "index.html"]:
         p = doc / rel
         p.parent.mkdir(parents=True, exist_ok=True)
-        p.write_text(f"stale {rng.random()}\n")
+        if rel.startswith("src/"):
+            # the copy of a source file of the project that was documented here before (`incl_src`)
+            m = "old_module" if rel.endswith("old.f90") else "other_stale"
+            p.write_text(f"module {m}\n  !! left by another project {rng.random()}\n  integer :: x = 0\n    !! stale\ncontains\n"
+                         f"  subroutine foo()\n    !! stale foo\n  end subroutine foo\n  subroutine init()\n  end subroutine init\n"
+                         f"end module {m}\n")
+        else:
+            p.write_text(f"stale {rng.random()}\n")
 
 
 def run_ford(pf, hashseed=None, extra_args=(), shim=None):
@@ -733,14 +1010,17 @@ RUN_TIMEOUT_S = 100
 
 def one_run(job):
     """Executed in a worker thread: run ford once, return digest + trace."""
-    (root, files, options, run) = job
+    (root, files, options, run, pages) = job
     root = Path(root)
     rid = run["id"]
     d = root / f"r{rid}"
     if d.exists():
         shutil.rmtree(d)
-    pf = e2e.write_project(d, files, options)
-    doc = d / "doc"
+    # the output directory: from the project file (an explicit `None` leaves the option out), or given with `-o`
+    out_rel = run.get("cli_output_dir") or options.get("output_dir") or "./doc"
+    pf = e2e.write_project(d, files, options, pages=pages or None)
+    doc = d / out_rel
+    extra = ["-o", run["cli_output_dir"]] if run.get("cli_output_dir") else []
     rng = random.Random(run.get("junk_seed", 0))
     t0 = time.time()
     log_pre = ""
@@ -750,15 +1030,18 @@ def one_run(job):
         junk_tree(doc, rng, True)
     elif run["stale"] == "same":
         # an earlier run of the same project (other hash seed, natural order) left its output
-        rc0, log_pre = run_ford(pf, hashseed=run["hashseed"] + 17 if isinstance(run["hashseed"], int) else 5)
+        rc0, log_pre = run_ford(pf, hashseed=run["hashseed"] + 17 if isinstance(run["hashseed"], int) else 5, extra_args=extra)
         (doc / "leftover_marker.html").write_text("left by the earlier run\n") if doc.is_dir() else None
     tracefile = d / "trace.json"
     shim = SHIM % {"forced": run["order"], "srcroot": str(d / "src"), "tracefile": str(tracefile),
-                   "workaround": bool(run.get("workaround"))}
-    extra = []
+                   "workaround": bool(run.get("workaround")), "fsorder": run.get("fsorder"),
+                   "clock": int(run.get("clock") or 0)}
+    fs_before = sorted(os.path.relpath(os.path.join(w, f), d) for w, _ds, fs_ in os.walk(d) for f in fs_)
     rc, log = run_ford(pf, hashseed=run["hashseed"], extra_args=extra, shim=shim)
-    res = {"id": rid, "rc": rc, "log": (log_pre + log)[-1500:], "wall": time.time() - t0}
+    res = {"id": rid, "rc": rc, "log": (log_pre + log)[-1500:], "wall": time.time() - t0, "fs_before": fs_before,
+           "out_rel": os.path.normpath(out_rel)}
     res["tree"] = e2e.tree_digest(doc) if doc.is_dir() else {}
+    res["dir"] = str(d)
     try:
         res["trace"] = json.loads(tracefile.read_text())
     except Exception as e:
@@ -776,6 +1059,22 @@ def one_run(job):
         for p in sorted((doc / "src").iterdir()):
             src[p.name] = p.read_text(errors="replace")
     res["src"] = src
+    # everything later steps need from the run directory are the pages (`*.html` below the output directory: the
+    # "Uses" lists are compared structurally); the rest is removed here, in the worker thread, so that the removal
+    # of ~20000 files does not happen serially when the scratch directory is cleaned up
+    keep = str(doc) + os.sep
+    for w, _ds, fs_ in os.walk(d, topdown=False):
+        for f in fs_:
+            q = os.path.join(w, f)
+            if not (q.startswith(keep) and f.endswith(".html")):
+                try:
+                    os.unlink(q)
+                except OSError:
+                    pass
+        try:
+            os.rmdir(w)
+        except OSError:
+            pass
     return res
 
 
@@ -788,20 +1087,28 @@ def micro_sort(ford, drv, rng, n, rep):
 
     alpha = "abAB~_019 zZ.-"
     reqs, exp = [], []
+    node_trouble = []
+    gd = G.GraphData("../", False, False)
     for k in range(n):
         xs = ["".join(rng.choice(alpha) for _ in range(rng.randint(0, 6))) for _ in range(rng.randint(0, 8))]
         if k % 2 == 0:
             want = sorted(xs)
         else:
             # through the real node class: set (dedup on ident) then sorted() with BaseNode.__lt__
-            nodes = []
-            for x in xs:
-                nd = object.__new__(G.BaseNode)
-                nd.ident = x
-                nodes.append(nd)
-            st = set(nodes)
-            xs = [nd.ident for nd in st]
-            want = [nd.ident for nd in sorted(st)]
+            # (string nodes: identifier = label = the string, so this stream stays a test of the string order
+            # whatever attribute __lt__ compares; equal labels on different identifiers are micro/nodes' business)
+            try:
+                nodes = [G.BaseNode(x, gd) for x in xs]
+                if any(nd.ident != x for nd, x in zip(nodes, xs)):
+                    raise ValueError("a string node does not carry the string as identifier")
+                st = set(nodes)
+                xs = [nd.ident for nd in st]
+                want = [nd.ident for nd in sorted(st)]
+            except Exception as e:
+                if not node_trouble:
+                    rep.tie_broken(f"micro/sort: real BaseNode objects cannot be made / sorted: {e!r}", {"strings": xs})
+                node_trouble.append(repr(e))
+                want = sorted(xs)
         reqs.append(["c12.sort", *xs])
         exp.append(["ok", *want])
     got = drv.batch(reqs)
@@ -811,6 +1118,121 @@ def micro_sort(ford, drv, rng, n, rep):
             bad += 1
             rep.tie_broken(f"correspondence micro/sort: model {g} vs implementation {e}",
                            {"stream": "micro/sort", "request": r, "impl": e, "model": g})
+    return len(reqs), bad
+
+
+def micro_nodes(ford, drv, rng, n, rep, hist):
+    """`sorted()` over graph nodes (`BaseNode.__lt__`) and over entities (`FortranBase.__lt__`), on objects made by
+    the real constructors from stub entities of the real classes (real `get_dir()`, identifiers from a real
+    NameSelector): equally named entities of different modules, a procedure and a type of one name, external names
+    given as strings.  A Python set is iterated in an arbitrary order, so the property demands one result for every
+    permutation of the same objects (oracle); the model gets the permutation and must give the same list
+    (correspondence)."""
+    import ford.graphs as G
+    import ford.sourceform as S
+
+    saved = S.namelist
+    parent_mod = object.__new__(S.FortranModule)
+    parent_mod.obj = "module"
+    kinds = [(S.FortranSubroutine, "proc", parent_mod), (S.FortranFunction, "proc", parent_mod),
+             (S.FortranType, "type", parent_mod), (S.FortranModule, "module", None), (S.FortranProgram, "program", None),
+             (S.FortranInterface, "interface", parent_mod), (None, "string", None)]
+    names = ["helper", "Helper", "report", "x", "solve", "HELPER", "a_b", "a", "state_t", "report"]
+    reqs, exp, ctx = [], [], []
+    bad = 0
+    n_fail: dict = {}
+    try:
+        gd = G.GraphData("../", False, False)
+    except Exception as e:
+        rep.tie_broken(f"micro/nodes: GraphData cannot be made: {e!r}")
+        return 0, 1
+    try:
+        for case_no in range(n):
+            S.namelist = S.NameSelector()
+            k = rng.randint(2, 6)
+            one_kind = rng.random() < 0.5
+            kd = rng.choice(kinds[:3])
+            ents, nodes = [], []
+            try:
+                for _ in range(k):
+                    cls, obj, parent = kd if one_kind else rng.choice(kinds)
+                    nm = rng.choice(names)
+                    if cls is None:
+                        nodes.append(G.BaseNode(nm, gd))
+                        continue
+                    it = object.__new__(cls)
+                    it.obj = obj
+                    it.parent = parent
+                    it.name = nm
+                    it.visible = True
+                    it.base_url = ".."
+                    ents.append(it)
+                    nodes.append(G.BaseNode(it, gd))
+            except Exception as e:
+                rep.tie_broken(f"micro/nodes: the real node constructor failed on a stub entity: {e!r}")
+                bad += 1
+                break
+            for what, objs, ident_of, label_of in (
+                    ("node", list({nd.ident: nd for nd in nodes}.values()), lambda o: o.ident, lambda o: o.attribs["label"]),
+                    ("entity", ents, lambda o: o.ident, lambda o: o.name)):
+                if what == "entity":
+                    # the sets FORD sorts hold entities of one kind; different kinds may share an identifier
+                    d0 = objs[0].get_dir() if objs else None
+                    objs = [o for o in objs if o.get_dir() == d0]
+                if len(objs) < 2:
+                    continue
+                desc = [[ident_of(o), label_of(o)] for o in objs]
+                if len({d[0] for d in desc}) != len(desc):
+                    rep.tie_broken(f"micro/nodes: two different {what} objects share the identifier", {"objects": desc})
+                    continue
+                perms = list(itertools.permutations(range(len(objs)))) if len(objs) <= 4 else \
+                    [tuple(rng.sample(range(len(objs)), len(objs))) for _ in range(7)] + [tuple(reversed(range(len(objs))))]
+                ref = None
+                tie = len({d[1].lower() for d in desc}) < len(desc)
+                hk = f"sorted({what}s): " + ("equal labels among them" if tie else "all labels different")
+                hist[hk] = hist.get(hk, 0) + 1
+                for pm in perms:
+                    seq = [objs[i] for i in pm]
+                    try:
+                        got = [ident_of(o) for o in sorted(seq)]
+                        got_set = [ident_of(o) for o in sorted(set(seq))] if what == "node" else got
+                    except Exception as e:
+                        rep.tie_broken(f"micro/nodes: sorted() of real {what} objects raises {e!r}", {"objects": desc})
+                        bad += 1
+                        break
+                    reqs.append(["c12.nodes", what] + [x for i in pm for x in desc[i]])
+                    exp.append(["ok", *got])
+                    ctx.append(desc)
+                    if ref is None:
+                        ref = (pm, got)
+                    for g_ in (got, got_set):
+                        if g_ != ref[1]:
+                            n_fail[what] = n_fail.get(what, 0) + 1
+                            if n_fail[what] > 3:      # leave room in the report for the end-to-end cases
+                                break
+                            rep.failing_input(
+                                {"stream": "micro/nodes", "what": f"sorted() over a collection of {what} objects",
+                                 "objects (identifier, label)": desc,
+                                 "iteration_order_a": [desc[i][0] for i in ref[0]], "sorted_a": ref[1],
+                                 "iteration_order_b": [desc[i][0] for i in pm], "sorted_b": g_,
+                                 "why": "the same objects, handed to sorted() in two iteration orders of the set they are "
+                                        "kept in, come out in two different orders: the emission order of graph nodes / the "
+                                        "order identifiers are requested in depends on the hash seed",
+                                 "oracle": "sorted(S) must not depend on the iteration order of the set S"}, None)
+                            break
+    finally:
+        S.namelist = saved
+    got = drv.batch(reqs)
+    seen_bad = set()
+    for r, e, g, desc in zip(reqs, exp, got, ctx):
+        if e != g:
+            bad += 1
+            key = json.dumps(desc)
+            if key in seen_bad:
+                continue
+            seen_bad.add(key)
+            rep.tie_broken(f"correspondence micro/nodes: model {g} vs sorted() of the real objects {e}",
+                           {"stream": "micro/nodes", "request": r, "impl": e, "model": g})
     return len(reqs), bad
 
 
@@ -867,6 +1289,42 @@ def micro_number(ford, drv, rng, n, rep, hist):
             bad += 1
             rep.tie_broken(f"correspondence micro/number: model {g} vs NameSelector {e}",
                            {"stream": "micro/number", "request": r, "impl": e, "model": g})
+    return len(reqs), bad
+
+
+def micro_filekind(T, drv, rng, n, rep, hist):
+    """the real `Project.__init__` / `_fortran_file` on stubs (translate.c12._probe_project: `find_all_files` hands
+    out the names, the source-file class only records how it is called), for random extension lists - in random
+    order, some extensions being dotted suffixes of others - and file names with one or several suffixes"""
+    pool = ["f90", "F90", "pp.f90", "q.f90", "f", "inc.f", "F", "x.y.f90", "txt", "cfg.txt", "90", "pp.F90"]
+    stems = ["a", "b.c", "d", "e_1"]
+    tails = ["f90", "pp.f90", "q.f90", "F90", "f", "inc.f", "txt", "cfg.txt", "x.y.f90", "pp.F90", "f90.txt", "F", "dat", "90", ""]
+    reqs, exp = [], []
+    for _ in range(n):
+        cand = rng.sample(pool, len(pool))
+        exts = cand[:rng.randint(1, 4)]
+        fixed = cand[4:4 + rng.randint(0, 2)]
+        extra = cand[6:6 + rng.randint(0, 2)]
+        fpp = rng.sample(exts + fixed, rng.randint(0, min(3, len(exts + fixed))))
+        names = list(dict.fromkeys(rng.choice(stems) + ("." + t if t else "") for t in rng.sample(tails, rng.randint(1, 6))))
+        paths = ["/p/src/" + nm for nm in names]
+        dec, _log = T._probe_project(paths, exts, fixed, fpp, extra)
+        real = {os.path.basename(d[0]): (["fortran", "1" if d[2] else "0", "1" if d[3] else "0"] if d[1] == "fortran" else ["extra"])
+                for d in dec}
+        for nm in names:
+            reqs.append(["c12.filekind", nm, str(len(exts)), *exts, str(len(fixed)), *fixed, str(len(fpp)), *fpp,
+                         str(len(extra)), *extra])
+            exp.append(["ok"] + real.get(nm, ["skipped"]))
+            ends = sum(1 for e in exts + fixed + extra if nm.endswith("." + e))
+            k = f"file kind: name ends with {min(ends, 2)}{'+' if ends >= 2 else ''} configured extensions"
+            hist[k] = hist.get(k, 0) + 1
+    got = drv.batch(reqs)
+    bad = 0
+    for r, e, g in zip(reqs, exp, got):
+        if e != g:
+            bad += 1
+            rep.tie_broken(f"correspondence micro/filekind: model {g} vs Project.__init__ {e} for {r[1]!r}",
+                           {"stream": "micro/filekind", "request": r, "impl": e, "model": g})
     return len(reqs), bad
 
 
@@ -935,6 +1393,65 @@ def assignment(run):
                   for r in (run["trace"] or {}).get("requests", []))
 
 
+def out_cfg_label(feat, options) -> str:
+    """the row of the probed table `outputDirExcludedIn` this project's way of naming its output directory is"""
+    how = "the command line" if feat.get("out_mode") == "nested-cli" else "the project file"
+    return f"output_dir from {how}; " + ("project_url set" if options.get("project_url") else "relative URLs")
+
+
+def stale_output_read(feat, options, run, res, out_cfg_excluded) -> bool:
+    """class C12-cli-output-dir-not-excluded, decided from the input: the output directory is given with `-o` only,
+    lies inside the source directory and holds Fortran files when the run starts (left by this or another
+    project) - and the tree is the unrepaired one (probed) - and files below it really were enumerated"""
+    if feat.get("out_mode") != "nested-cli" or run.get("stale") not in ("junk", "same"):
+        return False
+    if out_cfg_excluded.get(out_cfg_label(feat, options), True):
+        return False
+    out = res.get("out_rel", "") + "/"
+    return any(p.startswith(out) for p in ((res.get("trace") or {}).get("enumerated") or []))
+
+
+def classify_failure(feat, options, run, res, out_cfg_excluded):
+    """a run that stops with an error where the base run completes -> (finding id | None, explanation)"""
+    graphs_to_files = "graph_dir" in options and options.get("graph") == "true"
+    if run["parallel"] > 0 and not run.get("workaround") and graphs_to_files and "cannot pickle" in res["log"]:
+        return F_PAR, "parallel > 0 with graph_dir: the settings object holds an open file"
+    if run["parallel"] > 0 and run.get("workaround") and feat.get("case_collide") and "graph_dir" in options:
+        # two entities whose names differ only in case get the same identifier (C10), so two worker processes
+        # write the same graph file at the same time
+        return F_RACE, "two worker processes write the graph file of one shared identifier"
+    if stale_output_read(feat, options, run, res, out_cfg_excluded):
+        return F_CLIOUT, "the output directory given with -o is inside the source directory and not excluded: " \
+                         "the files an earlier run left there are parsed (and deleted before they are copied)"
+    return None, "no known class explains it"
+
+
+import functools
+
+
+@functools.lru_cache(maxsize=1024)
+def uses_list_normalised(path):
+    """(cached per file: the page of the base run is compared with that of every other run)
+    the page with the entries of its "Uses" list (the `use_list` macro: first inline list of the card headed
+    "Uses") put in one order: what is left must not depend on the iteration order of the `uses` set"""
+    from bs4 import BeautifulSoup
+
+    soup = BeautifulSoup(Path(path).read_text(errors="replace"), "html.parser")
+    for h in soup.find_all("h3"):
+        if h.get_text(strip=True) != "Uses":
+            continue
+        card = h.find_parent("div")
+        ul = card.find("ul", class_="list-inline") if card is not None else None
+        if ul is None or ul.find("h5") is not None:       # the second inline list holds the ancestors
+            continue
+        items = ul.find_all("li", class_="list-inline-item", recursive=False)
+        for it in items:
+            it.extract()
+        for it in sorted(items, key=str):
+            ul.append(it)
+    return str(soup)
+
+
 def classify(feat, options, base, other, diff_files, same_order: bool):
     """Return (finding id | None, explanation).  `base`/`other` are run results."""
     search_on = options.get("search") == "true"
@@ -970,6 +1487,7 @@ def classify(feat, options, base, other, diff_files, same_order: bool):
     if not paths_equal:
         return None, "set of output files differs"
     allowed = set()
+    uses_pages = set()
     reasons = []
     if feat["multi_use"]:
         # pages of the units with >= 2 used modules (their "Uses" list) and the search index built from them
@@ -981,6 +1499,7 @@ def classify(feat, options, base, other, diff_files, same_order: bool):
             u = tq.get((path, qual))
             if u:
                 allowed.add(u)
+                uses_pages.add(u)
         if search_on:
             allowed.add("search/search_database.json")
         reasons.append(F_USES)
@@ -1004,6 +1523,16 @@ def classify(feat, options, base, other, diff_files, same_order: bool):
                                      and sorted(base.get("search_urls") or []) == sorted(other.get("search_urls") or [])):
             return F_SEARCH, "search index lists the same pages in file-enumeration order"
         if F_USES in reasons:
+            # ... and on those pages only the order of the entries of the "Uses" list may differ
+            for f_ in sorted(set(diff_files) & uses_pages - inhby):
+                pa, pb = Path(base.get("dir", "")) / base.get("out_rel", "doc") / f_, Path(other.get("dir", "")) / other.get("out_rel", "doc") / f_
+                try:
+                    same = uses_list_normalised(pa) == uses_list_normalised(pb)
+                except Exception as e:
+                    return None, f"page {f_} of a unit with >= 2 used modules cannot be compared: {e!r}"
+                if not same:
+                    return None, (f"page {f_} of a unit with >= 2 used modules differs outside its 'Uses' list "
+                                  "(the only place where the order of the `uses` set is known to show)")
             return F_USES, "units with >= 2 used modules: " + ", ".join(q for _, q in feat["multi_use"][:4])
     return None, f"difference outside the sites the known classes explain: {sorted(set(diff_files) - allowed)[:6]}"
 
@@ -1012,24 +1541,38 @@ def classify(feat, options, base, other, diff_files, same_order: bool):
 # main
 # --------------------------------------------------------------------------
 
+def clock_shift():
+    """seconds by which the clock of some runs is shifted: forty days, staying inside the current year (the
+    copyright year in the footer is outside the statement)"""
+    import datetime
+    return (40 if datetime.date.today().month <= 10 else -40) * 86400 + 5 * 3600 + 1234
+
+
 def plan_runs(rng, gen: Gen, tier: str, options):
     paths = [f["path"] for f in gen.files]
     srt = sorted(paths)
-    runs = [{"id": 0, "hashseed": 0, "order": srt, "stale": "absent", "parallel": 0, "regime": "base"}]
+    runs = [{"id": 0, "hashseed": 0, "order": srt, "stale": "absent", "parallel": 0, "regime": "base",
+             "fsorder": "sorted", "clock": 0}]
     k = 1
-    # regime A: same enumeration order; hash seed, worker count and prior output vary
-    combos = [(1, 2, "junk"), (rng.randint(2, 10 ** 6), 8, "same"), (rng.randint(2, 10 ** 6), 0, "file")]
+    shift = clock_shift()
+    # regime A: same enumeration order of the source files; hash seed, worker count, prior output, the order in
+    # which every directory of the project is enumerated and the clock vary
+    combos = [(1, 2, "junk", "reversed", shift), (rng.randint(2, 10 ** 6), 8, "same", ["shuffle", rng.randint(0, 999)], 0),
+              (rng.randint(2, 10 ** 6), 0, "file", None, shift)]
     if tier == "thorough":
-        combos += [(3, 2, "absent"), (4, 8, "junk"), (5, 0, "same")]
-    for hs, par, stale in combos:
+        combos += [(3, 2, "absent", ["shuffle", rng.randint(0, 999)], 0), (4, 8, "junk", "sorted", shift),
+                   (5, 0, "same", "reversed", 0)]
+    for hs, par, stale, fso, clk in combos:
         runs.append({"id": k, "hashseed": hs, "order": srt, "stale": stale, "parallel": par, "regime": "same-order",
-                     "junk_seed": rng.randint(0, 999), "workaround": par > 0 and "graph_dir" in options})
+                     "junk_seed": rng.randint(0, 999), "workaround": par > 0 and "graph_dir" in options,
+                     "fsorder": fso, "clock": clk})
         k += 1
     if "graph_dir" in options and options.get("graph") == "true":
         # the same run as the base, only with worker processes, exactly as a user would start it
-        runs.append({"id": k, "hashseed": 0, "order": srt, "stale": "absent", "parallel": 2, "regime": "parallel-plain"})
+        runs.append({"id": k, "hashseed": 0, "order": srt, "stale": "absent", "parallel": 2, "regime": "parallel-plain",
+                     "fsorder": "sorted", "clock": 0})
         k += 1
-    # regime B: enumeration order varies (forced), hash seed fixed
+    # regime B: enumeration order varies (forced for the source files, arranged for every directory), hash seed fixed
     perms = list(itertools.permutations(srt))
     perms = [list(p) for p in perms if list(p) != srt]
     if tier == "quick" or len(srt) > 5:
@@ -1038,12 +1581,14 @@ def plan_runs(rng, gen: Gen, tier: str, options):
         rev = list(reversed(srt))
         if rev not in perms and rev != srt:
             perms[-1:] = [rev]
-    for p in perms:
-        runs.append({"id": k, "hashseed": 0, "order": p, "stale": "absent", "parallel": 0, "regime": "forced-order"})
+    for i, p in enumerate(perms):
+        runs.append({"id": k, "hashseed": 0, "order": p, "stale": "absent", "parallel": 0, "regime": "forced-order",
+                     "fsorder": "reversed" if i % 2 == 0 else ["shuffle", rng.randint(0, 999)], "clock": 0})
         k += 1
     # regime C: natural set order under other hash seeds (what a user sees)
     for hs in ([7] if tier == "quick" else [7, 8, "random"]):
-        runs.append({"id": k, "hashseed": hs, "order": None, "stale": "absent", "parallel": 0, "regime": "natural"})
+        runs.append({"id": k, "hashseed": hs, "order": None, "stale": "absent", "parallel": 0, "regime": "natural",
+                     "fsorder": None, "clock": 0})
         k += 1
     return runs
 
@@ -1057,7 +1602,9 @@ def run(tier: str, seed: int, replay: str | None = None) -> int:
     def translate():
         tables.update(T.generate())
 
+    t_start = time.time()
     lean = lean_prove(PROP, translate=translate, thorough=(tier == "thorough"))
+    phases = {"translate + lean": round(time.time() - t_start, 1)}
     for b in lean.broken():
         rep.tie_broken("proof: " + b)
     ford = common.import_ford()
@@ -1065,12 +1612,27 @@ def run(tier: str, seed: int, replay: str | None = None) -> int:
     drv = Driver()
     hist: dict[str, int] = {}
     variant = drv.call("c12.variant")
+    out_cfg_excluded = dict(tables.get("outputDirExcludedIn") or [])
     n_micro = 1500 if tier == "quick" else 15000
 
     with common.scratch_dir("ford-verif-c12-") as scratch:
-        ev_s, bad_s = micro_sort(ford, drv, rng, n_micro, rep)
-        ev_n, bad_n = micro_number(ford, drv, rng, n_micro, rep, hist)
-        ev_f, bad_f = micro_fs(drv, rng, 300 if tier == "quick" else 3000, rep, scratch)
+        def guarded(name, fn, *a):
+            """a change of the implementation must not make the harness fall over: an exception out of a micro
+            stream (raised by the code under test on the stub objects) is a broken tie, the check goes on"""
+            import traceback
+            try:
+                return fn(*a)
+            except Exception as e:
+                rep.tie_broken(f"{name}: the stream could not be evaluated, the implementation raised {e!r}",
+                               {"stream": name, "traceback": traceback.format_exc()[-1500:]})
+                return 0, 1
+
+        ev_s, bad_s = guarded("micro/sort", micro_sort, ford, drv, rng, n_micro, rep)
+        ev_n, bad_n = guarded("micro/number", micro_number, ford, drv, rng, n_micro, rep, hist)
+        ev_f, bad_f = guarded("micro/fs", micro_fs, drv, rng, 300 if tier == "quick" else 3000, rep, scratch)
+        ev_o, bad_o = guarded("micro/nodes", micro_nodes, ford, drv, random.Random(seed * 7919 + 5),
+                              400 if tier == "quick" else 4000, rep, hist)
+        ev_k, bad_k = guarded("micro/filekind", micro_filekind, T, drv, rng, 250 if tier == "quick" else 2500, rep, hist)
 
         # ---------------- e2e
         nproj = 24 if tier == "quick" else 60
@@ -1082,24 +1644,52 @@ def run(tier: str, seed: int, replay: str | None = None) -> int:
             clean = pi % 4 in (0, 1)          # globally unique names, unique basenames
             multi = pi % 4 in (1, 2)          # units with two or more USEs
             nfiles = rng.choice([2, 3, 3, 4]) if tier == "quick" else rng.choice([2, 3, 4, 5])
+            preproc = pi % 6 == 3
             g = Gen(random.Random(rng.randint(0, 10 ** 9)), clean, nfiles, multi, case_variants=(pi % 8 == 7),
-                    includes=(pi % 3 == 0))
+                    includes=(pi % 3 == 0), preproc=preproc)
             options = {"graph": "true" if pi % 3 != 2 else "false",
                        "search": "true" if (pi % 3 == 1) else "false",
                        "incl_src": "true" if pi % 5 != 4 else "false"}
+            # where the output goes: next to the source directory, or *inside* it (as with `src_dir: .` and the
+            # default `./doc`) - then everything an earlier run left there has a source directory above it;
+            # the directory is named in the project file or, for some projects, only on the command line
+            out_mode = "plain" if pi % 5 not in (1, 4) else ("nested-cli" if pi % 10 == 9 else "nested")
+            out_rel = "./doc" if out_mode == "plain" else "./src/html"
+            options["output_dir"] = None if out_mode == "nested-cli" else out_rel
+            if options["search"] == "false" and pi % 2 == 0:
+                # absolute URLs (with the search index on, FORD joins a str and a Path for them and stops)
+                options["project_url"] = "https://example.org/testproj"
             if options["graph"] == "true" and pi % 2 == 1 or pi % 6 == 0:
                 options["graph"] = "true"
-                options["graph_dir"] = "./doc/graphs"
+                options["graph_dir"] = out_rel + "/graphs"
             if g.inc_dirs:
                 options["include"] = ["./" + d for d in g.inc_dirs]
+            if preproc:
+                # the extension lists contain dotted suffixes of one another: `x.pp.f90` ends in `f90` and in `pp.f90`
+                options.update(preprocess="true", extensions=["f90", "q.f90"], fpp_extensions=["pp.f90", "F90"])
+            if pi % 6 == 5:
+                # the lists of every entity sorted by a key that leaves ties (equal names / types / permissions)
+                options["sort"] = rng.choice(["alpha", "permission", "permission-alpha", "type", "type-alpha"])
+            media = {}
+            if pi % 4 == 3:
+                options["media_dir"] = "./media"
+                media = {f"../media/{n}": f"media file {n}\n" for n in
+                         rng.sample(["logo.svg", "B.png.txt", "a/deep/x.txt", "a/y.txt", "z.css", "Z.css"], 4)}
             runs = plan_runs(rng, g, tier, options)
-            proj = {"index": pi, "gen": g, "options": options, "runs": runs, "files": g.sources(),
-                    "features": g.features(), "root": str(scratch / f"p{pi}")}
+            for r in runs:
+                r["cli_output_dir"] = out_rel if out_mode == "nested-cli" else None
+            pg = PageGen(random.Random(seed * 31337 + pi)) if pi % 5 in (0, 1, 3) else None
+            feat = dict(g.features(), out_mode=out_mode, preproc=preproc)
+            if pg is not None:
+                feat["pages"] = pg.features()
+            proj = {"index": pi, "gen": g, "options": options, "runs": runs, "files": dict(g.sources(), **media),
+                    "features": feat, "root": str(scratch / f"p{pi}"), "pagegen": pg,
+                    "pages": dict(pg.files) if pg is not None else {}}
             projects.append(proj)
             for r in runs:
                 o = dict(options)
                 o["parallel"] = str(r["parallel"])
-                jobs.append((pi, (proj["root"], proj["files"], o, r)))
+                jobs.append((pi, (proj["root"], proj["files"], o, r, proj["pages"])))
         if replay:
             rp = json.loads(Path(replay).read_text())
             for ci, case in enumerate(rp.get("cases", [])[:3]):
@@ -1109,13 +1699,15 @@ def run(tier: str, seed: int, replay: str | None = None) -> int:
                 runs[0]["id"], runs[1]["id"] = 0, 1
                 g = None
                 proj = {"index": ci, "gen": None, "options": case["options"], "runs": runs, "files": case["files"],
-                        "features": case["features"], "root": str(scratch / f"p{ci}")}
+                        "features": case["features"], "root": str(scratch / f"p{ci}"), "pagegen": None,
+                        "pages": case.get("pages") or {}}
                 projects.append(proj)
                 for r in runs:
                     o = dict(case["options"])
                     o["parallel"] = str(r["parallel"])
-                    jobs.append((ci, (proj["root"], proj["files"], o, r)))
+                    jobs.append((ci, (proj["root"], proj["files"], o, r, proj["pages"])))
         results: dict[int, dict[int, dict]] = {}
+        phases["micro streams + project generation"] = round(time.time() - t_start - phases["translate + lean"], 1)
         t_e2e = time.time()
         with cf.ThreadPoolExecutor(max_workers=min(16, os.cpu_count() or 4)) as ex:
             for (pi, _), res in zip(jobs, ex.map(one_run, [j for _, j in jobs])):
@@ -1131,6 +1723,9 @@ def run(tier: str, seed: int, replay: str | None = None) -> int:
         site_reqs, site_ctx = [], []
         inc_reqs, inc_ctx = [], []
         inh_reqs, inh_ctx = [], []
+        find_reqs, find_ctx = [], []
+        kind_reqs, kind_ctx = [], []
+        page_reqs, page_ctx = [], []
         for proj in projects:
             pi = proj["index"]
             feat = proj["features"]
@@ -1152,6 +1747,14 @@ def run(tier: str, seed: int, replay: str | None = None) -> int:
                             ("project: generic binding inherited by >= 2 types", bool(feat.get("generic_copies")))):
                 if on:
                     hist[key] = hist.get(key, 0) + 1
+            if proj.get("pages"):
+                hist["project: page_dir"] = hist.get("project: page_dir", 0) + 1
+            if feat.get("rename_callers"):
+                hist["project: call graph hop with equally named procedures"] = \
+                    hist.get("project: call graph hop with equally named procedures", 0) + 1
+            for key in ("sort", "media_dir"):
+                if key in proj["options"]:
+                    hist["option: " + key] = hist.get("option: " + key, 0) + 1
             for key in ("graph", "search", "incl_src"):
                 if proj["options"].get(key) == "true":
                     hist["option: " + key] = hist.get("option: " + key, 0) + 1
@@ -1163,31 +1766,26 @@ def run(tier: str, seed: int, replay: str | None = None) -> int:
                 hist["run: " + r["regime"]] = hist.get("run: " + r["regime"], 0) + 1
                 hist[f"run: stale={r['stale']}"] = hist.get(f"run: stale={r['stale']}", 0) + 1
                 hist[f"run: parallel={r['parallel']}"] = hist.get(f"run: parallel={r['parallel']}", 0) + 1
-                if rr is not None and rr["rc"] != 0 and r["parallel"] > 0 and not r.get("workaround") \
-                        and base is not None and base["rc"] == 0:
-                    # the run with worker processes dies where the serial run succeeds: a failure of the property
-                    crash = "graph_dir" in proj["options"] and proj["options"].get("graph") == "true" \
-                        and "cannot pickle" in rr["log"]
-                    hist["difference: " + (F_PAR if crash else "UNEXPLAINED")] = \
-                        hist.get("difference: " + (F_PAR if crash else "UNEXPLAINED"), 0) + 1
+                fso = r.get("fsorder")
+                fso = "as the file system gives it" if fso is None else (fso if isinstance(fso, str) else "shuffled")
+                hist[f"run: directories enumerated {fso}"] = hist.get(f"run: directories enumerated {fso}", 0) + 1
+                if r.get("clock"):
+                    hist["run: clock shifted"] = hist.get("run: clock shifted", 0) + 1
+                if rr is not None and rr["rc"] not in (0, -9) and r["id"] != 0 and base is not None and base["rc"] == 0:
+                    # The run stops with an error where the base run - same project, same options - completes: the
+                    # output is not the same (clauses: worker processes / hash seed / enumeration order / what an
+                    # earlier run left in the output directory, whichever this run varies).  (-9: killed by the
+                    # harness's own watchdog, not a verdict.)
+                    cls, why = classify_failure(feat, proj["options"], r, rr, out_cfg_excluded)
+                    hist["difference: " + (cls or "UNEXPLAINED")] = hist.get("difference: " + (cls or "UNEXPLAINED"), 0) + 1
                     rep.failing_input({"stream": "e2e", "project": pi, "files": proj["files"], "options": proj["options"],
+                                       "pages": proj["pages"],
                                        "features": feat, "base_run": proj["runs"][0], "other_run": r,
-                                       "why": "run with parallel > 0 fails (rc=%s) where parallel = 0 succeeds" % rr["rc"],
-                                       "log": rr["log"][-600:],
-                                       "oracle": "the number of worker processes must not change the output"},
-                                      F_PAR if crash else None)
-                    continue
-                if rr is not None and rr["rc"] != 0 and r["parallel"] > 0 and r.get("workaround") \
-                        and base is not None and base["rc"] == 0 and feat.get("case_collide") \
-                        and "graph_dir" in proj["options"]:
-                    # two entities whose names differ only in case get the same identifier (C10), so two
-                    # worker processes write the same graph file at the same time
-                    hist["difference: " + F_RACE] = hist.get("difference: " + F_RACE, 0) + 1
-                    rep.failing_input({"stream": "e2e", "project": pi, "files": proj["files"], "options": proj["options"],
-                                       "features": feat, "base_run": proj["runs"][0], "other_run": r,
-                                       "why": "run with parallel > 0 fails (rc=%s) where parallel = 0 succeeds" % rr["rc"],
-                                       "log": rr["log"][-600:],
-                                       "oracle": "the number of worker processes must not change the output"}, F_RACE)
+                                       "why": f"this run fails (rc={rr['rc']}) where the base run succeeds: {why}",
+                                       "files_enumerated": (rr.get("trace") or {}).get("enumerated"),
+                                       "log": rr["log"][-700:],
+                                       "oracle": "two runs of the same project and options must give byte-identical trees; "
+                                                 "a run that fails gives none"}, cls)
                     continue
                 if rr is None or rr["rc"] != 0 or not rr["tree"]:
                     rep.tie_broken(f"e2e: ford run failed (project {pi}, run {r})",
@@ -1201,7 +1799,8 @@ def run(tier: str, seed: int, replay: str | None = None) -> int:
                 if r["order"] is not None:
                     # asIs: the set is parsed in its iteration order; repaired: sorted first (variant read from the tree)
                     expect = r["order"] if variant[1] == "asIs" else sorted(r["order"])
-                    if tr["order"] != expect:
+                    # (files that do not belong to the project are dealt with below)
+                    if [p for p in tr["order"] if p in proj["files"]] != expect:
                         rep.tie_broken(f"e2e: files parsed in {tr['order']}; enumeration forced to {r['order']}, "
                                        f"variant {variant[1]} predicts {expect}")
                 distinct.add(common.digest([proj["files"], proj["options"], tr["order"], r["hashseed"], r["parallel"], r["stale"]]))
@@ -1217,8 +1816,28 @@ def run(tier: str, seed: int, replay: str | None = None) -> int:
                 number_reqs.append(["c12.number", *fields])
                 number_exp.append(e)
                 number_ctx.append((pi, r["id"]))
+                # --- which files are read (find_all_files on the files that were on disk when the run started)
+                #     and as what each of them is opened (preprocessed? fixed form?)
+                if tr.get("enumerated") is not None and tr.get("exts"):
+                    ex = tr["exts"]
+                    allext = ex["extensions"] + ex["fixed"] + ex["extra"]
+                    find_reqs.append(["c12.find", out_cfg_label(feat, proj["options"]), rr["out_rel"], "1", "src", "0",
+                                      str(len(allext)), *allext, *rr["fs_before"]])
+                    find_ctx.append((pi, r, tr["enumerated"]))
+                    for (path, pre, fixed) in tr.get("opened", []):
+                        kind_reqs.append(["c12.filekind", os.path.basename(path)]
+                                         + [x for key in ("extensions", "fixed", "fpp", "extra")
+                                            for x in [str(len(ex[key])), *ex[key]]])
+                        kind_ctx.append((pi, r, path, ["ok", "fortran", "1" if pre else "0", "1" if fixed else "0"]))
+                else:
+                    rep.tie_broken(f"e2e: the shim did not see find_all_files (project {pi}, run {r['id']})")
+                unknown = [p for p in tr["order"] if p not in proj["files"]]
+                if unknown and not stale_output_read(feat, proj["options"], r, rr, out_cfg_excluded):
+                    rep.tie_broken(f"e2e (project {pi} run {r['id']}, output directory {r['stale']}): files that are not "
+                                   f"sources of the project were parsed: {unknown[:6]}",
+                                   {"stream": "e2e", "run": r, "parsed": tr["order"]})
                 # --- project lists / search order / src copies predicted from the enumeration order
-                if proj["gen"] is not None:
+                if proj["gen"] is not None and not unknown:
                     g = proj["gen"]
                     ents = g.entities()
                     uid_of = {(p, q, d): i + 1 for i, (p, q, d, n) in enumerate(ents)}
@@ -1249,7 +1868,7 @@ def run(tier: str, seed: int, replay: str | None = None) -> int:
                     # --- derived types: what each type shows, predicted from the declarations along its chain
                     decls = g.type_decls()
                     traced = {(t["file"], t["qual"]): t for t in tr.get("types", [])}
-                    for key, t in traced.items():
+                    for key, t in ([] if proj["options"].get("sort", "src") != "src" else traced.items()):
                         chain = []
                         cur = key
                         while cur is not None and cur in decls and cur not in chain:
@@ -1267,6 +1886,30 @@ def run(tier: str, seed: int, replay: str | None = None) -> int:
                                     fields += [nm, "1" if priv else "0"]
                             inh_reqs.append(["c12.inherit", *fields])
                             inh_ctx.append((pi, r, key, kind, real, len(chain)))
+                # --- page directories: the names get_page_tree walks, predicted from the listing it was given
+                pg = proj.get("pagegen")
+                if pg is not None:
+                    pages_root = os.path.join(rr["dir"], "pages")
+                    seen_dirs = set()
+                    for rec in tr.get("pagedirs", []):
+                        rel = os.path.relpath(rec.get("dir", "?"), pages_root)
+                        rel = "" if rel == "." else rel
+                        if "error" in rec or rel not in pg.dirs or not rec.get("made") or rec.get("listing") is None:
+                            if "error" in rec or rel in pg.dirs or rec.get("made"):
+                                rep.tie_broken(f"e2e/pages (project {pi} run {r['id']}): unexpected page directory record "
+                                               f"{json.dumps(rec)[:300]}", {"stream": "e2e/pages", "record": rec})
+                            continue
+                        seen_dirs.add(rel)
+                        d_ = pg.dirs[rel]
+                        if sorted(rec["listing"]) != sorted(d_["entries"]):
+                            rep.tie_broken(f"e2e/pages (project {pi} run {r['id']}): listing of {rel or '.'} is {rec['listing']}, "
+                                           f"written were {sorted(d_['entries'])}")
+                            continue
+                        page_reqs.append(["c12.pages", str(len(d_["ordered"])), *d_["ordered"], *rec["listing"]])
+                        page_ctx.append((pi, r, rel, rec, pg))
+                    if seen_dirs != set(pg.dirs):
+                        rep.tie_broken(f"e2e/pages (project {pi} run {r['id']}): page directories visited {sorted(seen_dirs)}, "
+                                       f"written {sorted(pg.dirs)}")
             # --- the property oracle: every run against the base run
             if base is None or not base.get("tree"):
                 continue
@@ -1281,13 +1924,31 @@ def run(tier: str, seed: int, replay: str | None = None) -> int:
                     continue
                 n_diff_pairs += 1
                 same_order = (rr["trace"] or {}).get("order") == (base["trace"] or {}).get("order")
-                cls, why = classify(feat, proj["options"], base, rr, diff, same_order)
+                if stale_output_read(feat, proj["options"], r, rr, out_cfg_excluded):
+                    cls, why = F_CLIOUT, "files below the output directory (given with -o, inside the source directory) " \
+                                         "were parsed as sources"
+                else:
+                    cls, why = classify(feat, proj["options"], base, rr, diff, same_order)
+                    # the open findings explain differences between two runs that *read the same input in the same
+                    # way*; a run that enumerated other files or opened a file differently (preprocessed / not,
+                    # fixed / free form) is explained by none of them
+                    tb, to = base["trace"] or {}, rr["trace"] or {}
+                    if cls is not None and tb.get("enumerated") is not None and to.get("enumerated") is not None and (
+                            tb["enumerated"] != to["enumerated"]
+                            or sorted(map(tuple, tb.get("opened") or [])) != sorted(map(tuple, to.get("opened") or []))):
+                        cls, why = None, f"the two runs did not read the same files in the same way (would otherwise be {cls}: {why})"
                 hist["difference: " + (cls or "UNEXPLAINED")] = hist.get("difference: " + (cls or "UNEXPLAINED"), 0) + 1
                 case = {"stream": "e2e", "project": pi, "files": proj["files"], "options": proj["options"],
+                        "pages": proj["pages"],
                         "features": feat, "base_run": proj["runs"][0], "other_run": r,
                         "parse_order_base": (base["trace"] or {}).get("order"),
                         "parse_order_other": (rr["trace"] or {}).get("order"),
                         "differing_files": diff[:30], "only_in_one": sorted(set(a) ^ set(b))[:20], "why": why,
+                        "files_enumerated_only_in_one_run": sorted(set((base["trace"] or {}).get("enumerated") or [])
+                                                                   ^ set((rr["trace"] or {}).get("enumerated") or []))[:12],
+                        "files_opened_differently": sorted(
+                            {tuple(x) for x in (base["trace"] or {}).get("opened") or []}
+                            ^ {tuple(x) for x in (rr["trace"] or {}).get("opened") or []})[:12],
                         "identifiers_assigned_differently": sorted(set(assignment(base)) ^ set(assignment(rr)))[:12],
                         "oracle": "two runs of the same project and options must give byte-identical trees"}
                 if len(samples) < 3:
@@ -1302,6 +1963,24 @@ def run(tier: str, seed: int, replay: str | None = None) -> int:
                 bad_tr += 1
                 rep.tie_broken(f"correspondence e2e/number: NameSelector trace of project {ctx[0]} run {ctx[1]} "
                                f"is not what the model assigns", {"stream": "e2e/number", "impl": e[:40], "model": g[:40]})
+        got = drv.batch(find_reqs)
+        for (pi, r, real), g_ in zip(find_ctx, got):
+            hist[f"find_all_files: {len(real)} files"] = hist.get(f"find_all_files: {len(real)} files", 0) + 1
+            if g_[0] != "ok" or sorted(g_[1:]) != sorted(real):
+                bad_tr += 1
+                rep.tie_broken(f"correspondence e2e/find (project {pi} run {r['id']}, output directory {r['stale']}): "
+                               f"find_all_files returned {sorted(real)}; the model (below a source directory, configured "
+                               f"extension, not below an excluded directory - the output directory being one as probed) "
+                               f"says {sorted(g_[1:])}", {"stream": "e2e/find", "run": r, "impl": sorted(real), "model": g_})
+        got = drv.batch(kind_reqs)
+        for (pi, r, path, want), g_ in zip(kind_ctx, got):
+            k = "file opened: " + ("preprocessed" if want[2] == "1" else "as it is") + (", fixed form" if want[3] == "1" else "")
+            hist[k] = hist.get(k, 0) + 1
+            if g_ != want:
+                bad_tr += 1
+                rep.tie_broken(f"correspondence e2e/filekind (project {pi} run {r['id']}, hash seed {r['hashseed']}): {path} "
+                               f"was opened as {want[1:]} (fortran, preprocessed, fixed form); the model says {g_[1:]}",
+                               {"stream": "e2e/filekind", "run": r, "file": path, "impl": want, "model": g_})
         got = drv.batch(inc_reqs)
         for (pi, r, inc, real), g_ in zip(inc_ctx, got):
             want = (g_[2] + "/" + inc["name"]) if g_[:2] == ["ok", "some"] else None
@@ -1324,6 +2003,22 @@ def run(tier: str, seed: int, replay: str | None = None) -> int:
                                f"{what} of {key[1]} ({key[0]}) are {real}; the model (inherited ones in the parent's "
                                f"order, then the own ones) says {g_[1:]}",
                                {"stream": "e2e/inherit", "run": r, "type": list(key), "impl": real, "model": g_})
+        got = drv.batch(page_reqs)
+        for (pi, r, rel, rec, pg), g_ in zip(page_ctx, got):
+            ent = pg.dirs[rel]["entries"]
+            keys = [os.path.splitext(n)[0].lower() for n in ent]
+            hk = "page directory: " + ("entries that differ only in extension / case" if len(set(keys)) < len(keys)
+                                       else "all stems different") + (", ordered_subpage" if pg.dirs[rel]["ordered"] else "")
+            hist[hk] = hist.get(hk, 0) + 1
+            want = pg.expected(rel, g_[1:]) if g_[:1] == ["ok"] else None
+            real = (rec.get("subpages"), rec.get("files"))
+            if want is None or list(want[0]) != real[0] or list(want[1]) != real[1]:
+                bad_tr += 1
+                rep.tie_broken(f"correspondence e2e/pages (project {pi} run {r['id']}, directory order {r.get('fsorder')}): "
+                               f"page directory {rel or '.'} listed as {rec['listing']}: sub-pages {real[0]}, files {real[1]}; "
+                               f"the model (listing sorted by name, ordered_subpage first) says {want}",
+                               {"stream": "e2e/pages", "run": r, "directory": rel, "listing": rec["listing"],
+                                "ordered_subpage": pg.dirs[rel]["ordered"], "impl": real, "model": g_})
         got = drv.batch(site_reqs)
         n_site = 0
         for (proj, r, rr, ent_of), g in zip(site_ctx, got):
@@ -1349,10 +2044,11 @@ def run(tier: str, seed: int, replay: str | None = None) -> int:
                     lists[name] = []
                 else:
                     lists[name].append(list(ent_of[int(f)]))
-            for name, want in tr["lists"].items():
+            src_sorted = proj["options"].get("sort", "src") == "src"   # the model keeps the lists in source order
+            for name, want in (tr["lists"].items() if src_sorted else []):
                 if lists.get(name, []) != want:
                     problems.append(f"project.{name}: model {lists.get(name)} real {want}")
-            if proj["options"].get("search") == "true" and rr.get("search_urls") is not None:
+            if proj["options"].get("search") == "true" and rr.get("search_urls") is not None and src_sorted:
                 url_of = {}
                 for (pid, d, n, ident, fpath, q, *_par) in tr["requests"]:
                     url_of[(fpath, q, d)] = f"{d}/{ident}.html"
@@ -1363,6 +2059,24 @@ def run(tier: str, seed: int, replay: str | None = None) -> int:
                     if int(u) in file_uids and not incl:
                         continue
                     model_urls.append(url_of.get(tuple(ent_of[int(u)]), "?" + "/".join(ent_of[int(u)])))
+                if proj.get("pagegen") is not None:
+                    # the pages of the page tree follow the entity pages, in the order of the tree (a page, then its
+                    # sub-pages); the order inside every directory is corresponded with `c12.pages` separately
+                    pages_root = os.path.join(rr["dir"], "pages")
+                    subs = {}
+                    for rec in tr.get("pagedirs", []):
+                        if rec.get("made"):
+                            rel = os.path.relpath(rec["dir"], pages_root)
+                            subs["" if rel == "." else rel] = rec.get("subpages", [])
+
+                    def dfs(rel):
+                        out = ["page/" + (rel + "/" if rel else "") + "index.html"]
+                        for sp in subs.get(rel, []):
+                            out += dfs(sp[:-len("/index")]) if sp.endswith("/index") and sp[:-len("/index")] in subs \
+                                else ["page/" + sp + ".html"]
+                        return out
+
+                    model_urls += dfs("") if "" in subs else []
                 if model_urls != rr["search_urls"]:
                     problems.append(f"search index order: model {model_urls} real {rr['search_urls']}")
             if proj["options"].get("incl_src") == "true":
@@ -1378,22 +2092,34 @@ def run(tier: str, seed: int, replay: str | None = None) -> int:
                 rep.tie_broken(f"correspondence e2e/site (project {proj['index']} run {r['id']}): {pr[:400]}",
                                {"stream": "e2e/site", "run": r, "problem": pr[:2000]})
     drv.close()
+    phases["e2e runs"] = round(e2e_wall, 1)
+    phases["evaluation of the runs"] = round(time.time() - t_e2e - e2e_wall, 1)
     rep.coverage.update(
-        evaluations=ev_s + ev_n + ev_f + n_runs,
+        evaluations=ev_s + ev_n + ev_f + ev_k + ev_o + n_runs,
         distinct_nontrivial=len(distinct),
         rule="an e2e evaluation is one `python -m ford` subprocess on a generated multi-file project; non-trivial = "
              "it completed with a NameSelector/parse-order trace; distinct by digest of (sources, options, parse order, "
              "hash seed, parallel, prior state of the output directory)",
         samples=samples,
-        traces_validated_against_impl=ev_s + ev_n + ev_f + len(number_reqs) + n_site + len(inc_reqs) + len(inh_reqs),
+        traces_validated_against_impl=ev_s + ev_n + ev_f + ev_k + ev_o + len(number_reqs) + n_site + len(inc_reqs) + len(inh_reqs)
+        + len(find_reqs) + len(kind_reqs) + len(page_reqs),
+        file_sets_corresponded=len(find_reqs), files_opened_corresponded=len(kind_reqs),
         include_lines_corresponded=len(inc_reqs), derived_type_lists_corresponded=len(inh_reqs),
-        correspondence_disagreements=bad_s + bad_n + bad_f + bad_tr,
-        e2e_runs=n_runs, e2e_pairs_compared=n_pairs, e2e_pairs_differing=n_diff_pairs, e2e_wall_s=round(e2e_wall, 1),
+        page_directories_corresponded=len(page_reqs),
+        correspondence_disagreements=bad_s + bad_n + bad_f + bad_k + bad_o + bad_tr,
+        e2e_runs=n_runs, e2e_pairs_compared=n_pairs, e2e_pairs_differing=n_diff_pairs, e2e_wall_s=round(e2e_wall, 1), phase_wall_s=phases,
         variant_decided={"file iteration": variant[1], "uses iteration": variant[2], "NameSelector counter key": variant[3],
-                         "include directories": variant[4], "inherited entities": variant[5]},
+                         "include directories": variant[4], "inherited entities": variant[5],
+                         "BaseNode.__lt__": variant[6], "FortranBase.__lt__": variant[7],
+                         "page directory listing": variant[8],
+                         "kind of a file": variant[9] if len(variant) > 9 else "?",
+                         "output directory excluded from the source search": out_cfg_excluded},
         generated_tables={k: tables.get(k) for k in ("fileIterSorted", "countKeyLower", "usesIterSorted", "writeoutSteps", "pageListOrder",
                                                       "fortranFileOrder", "unitChainOrder", "incDirsOrdered", "incDirsKept",
-                                                      "inheritedIterOrdered", "inheritedIterables", "hashIterSites")},
+                                                      "inheritedIterOrdered", "inheritedIterables", "hashIterSites",
+                                                      "orderDefs", "sortSites", "pageListNatural", "pageListing",
+                                                      "extensionBySuffix", "outputDirExcludedIn", "symbolReplacements",
+                                                      "writeoutStepsPlainFile")},
         input_histogram=dict(sorted(hist.items())),
     )
     rep.assumptions += [
